@@ -32,7 +32,8 @@ def bodies(budget, depth=0):
         return out
     firsts = [{"op": "shell"}, {"op": "sbom"}]
     for cb in container_bodies(budget - 1):
-        firsts.append({"op": "container", "body": cb})
+        # an entrypoint with characters that are not legal in a container name
+        firsts.append({"op": "container", "cfg": {"entrypoint": "/cnb/process/web worker", "ports": [8080]}, "body": cb})
     for st in firsts:
         for rest in bodies(budget - size(st), depth):
             out.append([st] + rest)
